@@ -5,7 +5,7 @@
 From Coq Require Import ZArith List.
 From NTT Require Import Functors Algebra Inverse NTTInst NTTClosed NTTTables Shards Permut Tables FlatTable Fused GenEq.
 From NTT.gen Require Gen GenLoop.
-From NTT Require Structural GenLoopEq ScalarOps GenPrepEq InitSpec GenInitEq PrepSpec PermSem PermSrc InvNttSrc Frame InvNttAll SourceModel PowPhiSrc InvPowPhiSrc.
+From NTT Require Structural GenLoopEq ScalarOps GenPrepEq InitSpec GenInitEq PrepSpec PermSem PermSrc InvNttSrc Frame InvNttAll SourceModel PowPhiSrc InvPowPhiSrc RoundTripSrc.
 From NTT.gen Require GenPerm.
 From NTT.gen Require Import Params.
 Local Open Scope Z_scope.
@@ -187,6 +187,7 @@ Theorem C02_source_initialize_statement : forall bits K rowok run P roots invk, 
    length ph0 = (nm * n)%nat -> length sph0 = (nm * n)%nat -> length ipd0 = nm -> length ipi0 = (nm * n)%nat -> length sipi0 = (nm * n)%nat ->
    length om0 = (nm * (n * 2))%nat -> length iom0 = (nm * (n * 2))%nat ->
    exists ph sph ipd ipi sipi om iom, run fuel (Z.of_nat n) om0 iom0 ph0 sph0 ipd0 ipi0 sipi0 (Z.of_nat nm) = Some (ph, sph, ipd, ipi, sipi, om, iom) /\
+   (length ph = (nm * n)%nat /\ length sph = (nm * n)%nat /\ length ipd = nm /\ length ipi = (nm * n)%nat /\ length sipi = (nm * n)%nat /\ length om = (nm * (n * 2))%nat /\ length iom = (nm * (n * 2))%nat) /\
    forall c, (c < nm)%nat -> let p := nth c P 0 in let g := nth c roots 0 in let ik := nth c invk 0 in let sh := map (PrepSpec.shoup bits p) in
      nth c ipd 0 = NTTInst.ninv p ik K k0 /\
      (forall i, (i < n)%nat -> nth (c * n + i) ph 0 = nth i (NTTInst.phis p g K k0) 0 /\ nth (c * n + i) sph 0 = nth i (sh (NTTInst.phis p g K k0)) 0 /\
@@ -321,3 +322,59 @@ Theorem C02_source_invntt_pow_invphi : forall K k0 nm fuel P roots invk data iom
      ok 64 (GenLoop.gen_invntt_pow_invphi_serial_u64 fuel (Z.of_nat n) (Z.of_nat nm) data iom ipd ipi sipi P y0) /\ ok 64 (GenLoop.gen_invntt_pow_invphi_sse_u64 fuel (Z.of_nat n) (Z.of_nat nm) data iom ipd ipi sipi P y0) /\ ok 64 (GenLoop.gen_invntt_pow_invphi_avx2_u64 fuel (Z.of_nat n) (Z.of_nat nm) data iom ipd ipi sipi P y0)).
 Proof. exact InvPowPhiSrc.source_invntt_pow_invphi. Qed.
 Print Assumptions C02_source_invntt_pow_invphi.
+
+(* THE ROUND TRIP ON THE TRANSLATED SOURCE.  core::initialize(), core::ntt_pow_phi and core::invntt_pow_invphi -- each translated from the source
+   on this run (every build; the one expression-template statement of the two transforms with the meaning fixed in ExprSem.v) -- run one after
+   the other return the polynomial they started from: for any initial contents of the seven table arrays and of inv_ntt's scratch array,
+   any number of moduli, any degree 2^k with 4 <= k <= log2 maxdeg, any polynomial with canonical rows, and table rows (p, g, ik) in the
+   range of the limb type with g^maxdeg = -1 and ik * maxdeg = 1 modulo p (C06 proves this of every row of the tables of the source).
+   Composition of C02_source_initialize, C02_source_ntt_pow_phi, C02_source_invntt_pow_invphi with the closed theorems on the extracted pair. *)
+Theorem C02_source_round_trip_u16 : forall P roots invk k0 nm fuel ph0 sph0 ipd0 ipi0 sipi0 om0 iom0 data y0, (4 <= S k0 <= 9)%nat -> (S k0 < fuel)%nat -> Z.of_nat nm < 2 ^ 28 ->
+  let n := (2 ^ S k0)%nat in
+  length ph0 = (nm * n)%nat -> length sph0 = (nm * n)%nat -> length ipd0 = nm -> length ipi0 = (nm * n)%nat -> length sipi0 = (nm * n)%nat -> length om0 = (nm * (n * 2))%nat -> length iom0 = (nm * (n * 2))%nat ->
+  (length data = (nm * n)%nat /\ forall c, (c < nm)%nat -> List.Forall (fun v => 0 <= v < List.nth c P 0) (List.firstn n (List.skipn (c * n) data))) -> length y0 = S n ->
+  (forall c, (c < nm)%nat -> GenInitEq.rowok16 P roots invk c /\ (List.nth c roots 0 ^ (2 ^ Z.of_nat 9)) mod List.nth c P 0 = List.nth c P 0 - 1 /\ (List.nth c invk 0 * 2 ^ Z.of_nat 9) mod List.nth c P 0 = 1) ->
+  let rt := fun (fwd : list Z -> option (list Z)) (invf : list Z -> option (list Z * list Z)) => exists d1 yf, fwd data = Some d1 /\ invf d1 = Some (data, yf) in
+  exists ph sph ipd ipi sipi om iom, GenLoop.gen_initialize_u16 fuel (Z.of_nat n) om0 iom0 ph0 sph0 ipd0 ipi0 sipi0 (Z.of_nat nm) roots P invk = Some (ph, sph, ipd, ipi, sipi, om, iom) /\
+    rt (fun d => GenLoop.gen_ntt_pow_phi_serial_u16 (Z.of_nat n) (Z.of_nat nm) d ph sph om P) (fun d => GenLoop.gen_invntt_pow_invphi_serial_u16 fuel (Z.of_nat n) (Z.of_nat nm) d iom ipd ipi sipi P y0) /\
+    rt (fun d => GenLoop.gen_ntt_pow_phi_sse_u16 (Z.of_nat n) (Z.of_nat nm) d ph sph om P) (fun d => GenLoop.gen_invntt_pow_invphi_sse_u16 fuel (Z.of_nat n) (Z.of_nat nm) d iom ipd ipi sipi P y0) /\
+    rt (fun d => GenLoop.gen_ntt_pow_phi_avx2_u16 (Z.of_nat n) (Z.of_nat nm) d ph sph om P) (fun d => GenLoop.gen_invntt_pow_invphi_avx2_u16 fuel (Z.of_nat n) (Z.of_nat nm) d iom ipd ipi sipi P y0).
+Proof. exact (fun P roots invk k0 nm fuel ph0 sph0 ipd0 ipi0 sipi0 om0 iom0 data y0 Hk Hf Hnm L1 L2 L3 L4 L5 L6 L7 Hd Hy HR => RoundTripSrc.source_round_trip_u16 P roots invk k0 nm fuel ph0 sph0 ipd0 ipi0 sipi0 om0 iom0 data y0 (proj1 Hk) Hf Hnm L1 L2 L3 L4 L5 L6 L7 Hd Hy (proj2 Hk) HR). Qed.
+Print Assumptions C02_source_round_trip_u16.
+Theorem C02_source_round_trip_u32 : forall P roots invk k0 nm fuel ph0 sph0 ipd0 ipi0 sipi0 om0 iom0 data y0, (4 <= S k0 <= 15)%nat -> (S k0 < fuel)%nat -> Z.of_nat nm < 2 ^ 28 ->
+  let n := (2 ^ S k0)%nat in
+  length ph0 = (nm * n)%nat -> length sph0 = (nm * n)%nat -> length ipd0 = nm -> length ipi0 = (nm * n)%nat -> length sipi0 = (nm * n)%nat -> length om0 = (nm * (n * 2))%nat -> length iom0 = (nm * (n * 2))%nat ->
+  (length data = (nm * n)%nat /\ forall c, (c < nm)%nat -> List.Forall (fun v => 0 <= v < List.nth c P 0) (List.firstn n (List.skipn (c * n) data))) -> length y0 = S n ->
+  (forall c, (c < nm)%nat -> GenInitEq.rowok32 P roots invk c /\ (List.nth c roots 0 ^ (2 ^ Z.of_nat 15)) mod List.nth c P 0 = List.nth c P 0 - 1 /\ (List.nth c invk 0 * 2 ^ Z.of_nat 15) mod List.nth c P 0 = 1) ->
+  let rt := fun (fwd : list Z -> option (list Z)) (invf : list Z -> option (list Z * list Z)) => exists d1 yf, fwd data = Some d1 /\ invf d1 = Some (data, yf) in
+  exists ph sph ipd ipi sipi om iom, GenLoop.gen_initialize_u32 fuel (Z.of_nat n) om0 iom0 ph0 sph0 ipd0 ipi0 sipi0 (Z.of_nat nm) roots P invk = Some (ph, sph, ipd, ipi, sipi, om, iom) /\
+    rt (fun d => GenLoop.gen_ntt_pow_phi_serial_u32 (Z.of_nat n) (Z.of_nat nm) d ph sph om P) (fun d => GenLoop.gen_invntt_pow_invphi_serial_u32 fuel (Z.of_nat n) (Z.of_nat nm) d iom ipd ipi sipi P y0) /\
+    rt (fun d => GenLoop.gen_ntt_pow_phi_sse_u32 (Z.of_nat n) (Z.of_nat nm) d ph sph om P) (fun d => GenLoop.gen_invntt_pow_invphi_sse_u32 fuel (Z.of_nat n) (Z.of_nat nm) d iom ipd ipi sipi P y0) /\
+    rt (fun d => GenLoop.gen_ntt_pow_phi_avx2_u32 (Z.of_nat n) (Z.of_nat nm) d ph sph om P) (fun d => GenLoop.gen_invntt_pow_invphi_avx2_u32 fuel (Z.of_nat n) (Z.of_nat nm) d iom ipd ipi sipi P y0).
+Proof. exact (fun P roots invk k0 nm fuel ph0 sph0 ipd0 ipi0 sipi0 om0 iom0 data y0 Hk Hf Hnm L1 L2 L3 L4 L5 L6 L7 Hd Hy HR => RoundTripSrc.source_round_trip_u32 P roots invk k0 nm fuel ph0 sph0 ipd0 ipi0 sipi0 om0 iom0 data y0 (proj1 Hk) Hf Hnm L1 L2 L3 L4 L5 L6 L7 Hd Hy (proj2 Hk) HR). Qed.
+Print Assumptions C02_source_round_trip_u32.
+Theorem C02_source_round_trip_u64 : forall P Pn roots invk k0 nm fuel ph0 sph0 ipd0 ipi0 sipi0 om0 iom0 data y0, (4 <= S k0 <= 20)%nat -> (S k0 < fuel)%nat -> Z.of_nat nm < 2 ^ 28 ->
+  let n := (2 ^ S k0)%nat in
+  length ph0 = (nm * n)%nat -> length sph0 = (nm * n)%nat -> length ipd0 = nm -> length ipi0 = (nm * n)%nat -> length sipi0 = (nm * n)%nat -> length om0 = (nm * (n * 2))%nat -> length iom0 = (nm * (n * 2))%nat ->
+  (length data = (nm * n)%nat /\ forall c, (c < nm)%nat -> List.Forall (fun v => 0 <= v < List.nth c P 0) (List.firstn n (List.skipn (c * n) data))) -> length y0 = S n ->
+  (forall c, (c < nm)%nat -> GenInitEq.rowok64 P Pn roots invk c /\ (List.nth c roots 0 ^ (2 ^ Z.of_nat 20)) mod List.nth c P 0 = List.nth c P 0 - 1 /\ (List.nth c invk 0 * 2 ^ Z.of_nat 20) mod List.nth c P 0 = 1) ->
+  let rt := fun (fwd : list Z -> option (list Z)) (invf : list Z -> option (list Z * list Z)) => exists d1 yf, fwd data = Some d1 /\ invf d1 = Some (data, yf) in
+  exists ph sph ipd ipi sipi om iom, GenLoop.gen_initialize_u64 fuel (Z.of_nat n) om0 iom0 ph0 sph0 ipd0 ipi0 sipi0 (Z.of_nat nm) roots P Pn invk = Some (ph, sph, ipd, ipi, sipi, om, iom) /\
+    rt (fun d => GenLoop.gen_ntt_pow_phi_serial_u64 (Z.of_nat n) (Z.of_nat nm) d ph sph om P) (fun d => GenLoop.gen_invntt_pow_invphi_serial_u64 fuel (Z.of_nat n) (Z.of_nat nm) d iom ipd ipi sipi P y0) /\
+    rt (fun d => GenLoop.gen_ntt_pow_phi_sse_u64 (Z.of_nat n) (Z.of_nat nm) d ph sph om P) (fun d => GenLoop.gen_invntt_pow_invphi_sse_u64 fuel (Z.of_nat n) (Z.of_nat nm) d iom ipd ipi sipi P y0) /\
+    rt (fun d => GenLoop.gen_ntt_pow_phi_avx2_u64 (Z.of_nat n) (Z.of_nat nm) d ph sph om P) (fun d => GenLoop.gen_invntt_pow_invphi_avx2_u64 fuel (Z.of_nat n) (Z.of_nat nm) d iom ipd ipi sipi P y0).
+Proof. exact (fun P Pn roots invk k0 nm fuel ph0 sph0 ipd0 ipi0 sipi0 om0 iom0 data y0 Hk Hf Hnm L1 L2 L3 L4 L5 L6 L7 Hd Hy HR => RoundTripSrc.source_round_trip_u64 P roots invk k0 nm fuel ph0 sph0 ipd0 ipi0 sipi0 om0 iom0 data y0 (proj1 Hk) Hf Hnm L1 L2 L3 L4 L5 L6 L7 Hd Hy Pn (proj2 Hk) HR). Qed.
+Print Assumptions C02_source_round_trip_u64.
+
+(* non-vacuity of the round trip: the three translated functions RUN (vm_compute) on row 0 of the 16-bit table (p = 15361, g = 4989,
+   ik = 15331: C06_nonvacuous), degree 16, zeroed table arrays: the polynomial comes back *)
+Example C02_source_round_trip_nonvacuous :
+  let z := fun k => List.repeat 0 k in
+  let dat := (3 :: 5690 :: 11377 :: 1703 :: 7390 :: 13077 :: 3403 :: 9090 :: 1 :: 0 :: 15360 :: 2 :: 7 :: 15000 :: 12 :: 9999 :: nil) in
+  match GenLoop.gen_initialize_u16 8%nat 16 (z 32%nat) (z 32%nat) (z 16%nat) (z 16%nat) (z 1%nat) (z 16%nat) (z 16%nat) 1 (4989 :: nil) (15361 :: nil) (15331 :: nil) with
+  | Some (ph, sph, ipd, ipi, sipi, om, iom) =>
+     match GenLoop.gen_ntt_pow_phi_serial_u16 16 1 dat ph sph om (15361 :: nil) with
+     | Some d1 => match GenLoop.gen_invntt_pow_invphi_serial_u16 8%nat 16 1 d1 iom ipd ipi sipi (15361 :: nil) (z 17%nat) with Some (d2, _) => d1 <> dat /\ d2 = dat | None => False end
+     | None => False end
+  | None => False end.
+Proof. vm_compute. split; [discriminate | reflexivity]. Qed.
